@@ -40,7 +40,7 @@ fn main() {
         "listen" => {
             let addr = args.get(2).expect("address");
             let idle: u64 = args.get(3).and_then(|s| s.parse().ok()).unwrap_or(0);
-            let (svc, _p) = vl_model::svc::t_service_with(true);
+            let (svc, _p) = vl_tsvc::t_service_with(true);
             let r = varlink::listen(svc, addr, &varlink::ListenConfig { idle_timeout: idle, ..Default::default() });
             std::process::exit(match r {
                 Ok(()) => 0,
@@ -67,7 +67,7 @@ fn main() {
             }
             let addr = env("VARLINK_ADDRESS").unwrap_or_else(|| args.get(2).cloned().unwrap_or_default());
             let idle: u64 = env("VL_IDLE").and_then(|s| s.parse().ok()).unwrap_or(3);
-            let (svc, _p) = vl_model::svc::t_service_with(true);
+            let (svc, _p) = vl_tsvc::t_service_with(true);
             let r = varlink::listen(svc, &addr, &varlink::ListenConfig { idle_timeout: idle, ..Default::default() });
             std::process::exit(match r {
                 Ok(()) => 0,
@@ -79,7 +79,7 @@ fn main() {
             });
         }
         "stdio" => {
-            let (svc, _p) = vl_model::svc::t_service_with(true);
+            let (svc, _p) = vl_tsvc::t_service_with(true);
             let mut stdin = std::io::stdin();
             let mut stdout = std::io::stdout();
             let mut pending: Vec<u8> = vec![];
